@@ -39,7 +39,7 @@ BOUNDS = {
 ASSUMPTIONS = [
     "histories up to the stated length over append / insert(i) / delete by index / delete by session name / replace by session name",
     "names: every string up to 3 characters over the alphabet 'AaB:12 ' (case variants, blanks, suffix-like names inside)",
-    "file family: a LAS text whose ~Parameter or ~Curve section holds three lines with symbolic mnemonics (lengths 0..cap by exhaustive case-split, every character symbolic: printable, no blank, '.', ':', not starting with '~'/'#'), read with a symbolic mnemonic_case, written with the real writer and read again with the same option",
+    "file family: a LAS text whose ~Parameter, ~Curve or ~Version section holds three lines with symbolic mnemonics (lengths 0..cap by exhaustive case-split, every character symbolic: printable, no blank, '.', ':', not starting with '~'/'#'), read with a symbolic mnemonic_case, written with the real writer and read again with the same option",
     "numbering is required for the group of the inserted name after each insertion - append, insert, or the item put in by a replacement - (the minimal reading of the statement); other items must keep their session name (frame)",
 ]
 WITNESS_TARGETS = ["suffix-assigned", "blank-becomes-UNKNOWN", "case-variants-grouped", "unique-name-untouched", "file-with-blank-mnemonic-read-lower-case", "file-with-duplicates-round-trip"]
@@ -125,7 +125,7 @@ def tasks(tier):
             if ok and (k == b["history_len"] or OPS[seq[-1]] in ("append", "insert", "replace")):
                 out.append({"name": "-".join(OPS[o] for o in seq), "params": {"seq": [OPS[o] for o in seq], "cap": b["name_cap"]}, "weight": k})
     fc = b["file_name_len_cap"]
-    for sec in ("P", "C"):
+    for sec in ("P", "C", "V"):
         for lens in itertools.product(range(fc + 1), repeat=b["file_items"]):
             if tier == "thorough" and max(lens) < 2 and sec == "P":
                 continue
@@ -140,10 +140,17 @@ def file_lines(sec, names):
     def ln(k, nm):
         tail = ".U%d  : c%d" % (k, k) if sec == "C" else ".U%d  %d : p%d" % (k, k + 5, k)
         return concat([nm, tail]) if isinstance(nm, SymStr) else nm + tail
-    head = ["~Version", "VERS. 2.0 : v", "WRAP. NO : w", "~Well", "STRT.M 1 : s", "STOP.M 2 : e", "STEP.M 1 : i", "NULL. -999.25 : n", "~Curve", "DEPT.M : d"]
+    ver = ["~Version", "VERS. 2.0 : v", "WRAP. NO : w"]
+    rest = ["~Well", "STRT.M 1 : s", "STOP.M 2 : e", "STEP.M 1 : i", "NULL. -999.25 : n", "~Curve", "DEPT.M : d"]
+    if sec == "V":
+        return ver + [ln(k, nm) for k, nm in enumerate(names)] + rest + ["~Parameter", "PP.u 1 : pp", "~A", "1", "2"]
+    head = ver + rest
     if sec == "C":
         return head + [ln(k, nm) for k, nm in enumerate(names)] + ["~Parameter", "PP.u 1 : pp", "~A"] + ["%d %s" % (r + 1, " ".join(str(10 * (k + 1) + r) for k in range(len(names)))) for r in range(2)]
     return head + ["~Parameter"] + [ln(k, nm) for k, nm in enumerate(names)] + ["~A", "1", "2"]
+
+
+SKIP = {"P": 0, "C": 1, "V": 2}  # concrete items in front of the symbolic ones
 
 
 def expected_session_names(originals, transforms):
@@ -163,7 +170,7 @@ def expected_session_names(originals, transforms):
 
 def h_file(ns, params):
     sec, lens = params["file"], params["lens"]
-    secname = {"P": "Parameter", "C": "Curves"}[sec]
+    secname = {"P": "Parameter", "C": "Curves", "V": "Version"}[sec]
 
     def run():
         A = core.assume
@@ -176,6 +183,8 @@ def h_file(ns, params):
             nm = SymStr.fresh("m%d" % k, n, fixed_len=n)
             A(allc(nm, lambda c: z.And(printable(c), z.Not(isws(c)), not_char(".", ":", " ")(c))))  # isws: also U+00A0, which str.strip() removes
             A(z.Not(z.in_set_c(nm.chars[0], (126, 35))))
+            if sec == "V":
+                A(z.Not(SymStr.lift(nm.upper()).eq_expr("DLM")))  # a DLM item in ~Version declares the data delimiter
             names.append(nm)
         mc = fresh_int("mnemonic_case", 0, 2)
         inputs = {"file": sec, "names": names, "mnemonic_case": mc}
@@ -194,9 +203,7 @@ def h_file(ns, params):
             core.oblige("file-is-readable", False, info=repr(e)[:200])
             return {"observed": {"raised": "read:" + type(e).__name__}}
         section = las.sections[secname]
-        items = list(list.__iter__(section))
-        if sec == "C":
-            items = items[1:]
+        items = list(list.__iter__(section))[SKIP[sec]:]
         if len(items) != len(names):
             core.oblige("one-item-per-line", False, info="%d items" % len(items))
             return {"observed": {"raised": None, "n": len(items)}}
@@ -241,10 +248,14 @@ def h_file(ns, params):
         except Exception as e:
             core.oblige("file-round-trip-does-not-raise", False, info=repr(e)[:200])
             return {"observed": {"raised": "roundtrip:" + type(e).__name__}}
-        items2 = list(list.__iter__(las2.sections[secname]))
-        if sec == "C":
-            items2 = items2[1:]
+        items2 = list(list.__iter__(las2.sections[secname]))[SKIP[sec]:]
         obl = [("file-round-trip-same-number-of-items", len(items2) == len(items))]
+        # the concrete sections come back as they were read (same count, names, units, values, descriptions)
+        for other in ("Version", "Well", "Curves", "Parameter"):
+            if other != secname:
+                a_ = [(it.original_mnemonic, it.mnemonic, it.unit, it.descr) for it in list.__iter__(las.sections[other])]
+                b__ = [(it.original_mnemonic, it.mnemonic, it.unit, it.descr) for it in list.__iter__(las2.sections[other])]
+                obl.append(("file-round-trip-section-%s" % other, a_ == b__ or (other == "Version" and [x[:2] for x in a_] == [x[:2] for x in b__])))
         if len(items2) == len(items):
             for k, (a, b_) in enumerate(zip(items, items2)):
                 obl.append(("file-round-trip-original[%d]" % k, SymStr.lift(b_.original_mnemonic).eq_expr(a.original_mnemonic)))
@@ -260,7 +271,7 @@ def replay_file(i):
     import lasio
 
     sec, names = i["file"], i["names"]
-    secname = {"P": "Parameter", "C": "Curves"}[sec]
+    secname = {"P": "Parameter", "C": "Curves", "V": "Version"}[sec]
     mcase = ["preserve", "upper", "lower"][i["mnemonic_case"]]
     cm = {"preserve": lambda x: x, "upper": lambda x: x.upper(), "lower": lambda x: x.lower()}[mcase]
     text = "\n".join(file_lines(sec, names)) + "\n"
@@ -269,7 +280,7 @@ def replay_file(i):
     except Exception as e:
         return {"ok": False, "detail": "read raised %r for %r" % (e, text), "observed": {"raised": "read:" + type(e).__name__}}
     section = las.sections[secname]
-    items = list(section)[1:] if sec == "C" else list(section)
+    items = list(section)[SKIP[sec]:]
     problems = []
     if len(items) != len(names):
         return {"ok": False, "detail": "%d items for %d lines: %r" % (len(items), len(names), section), "observed": {"raised": None, "n": len(items)}}
@@ -293,7 +304,13 @@ def replay_file(i):
     except Exception as e:
         return {"ok": False, "detail": "round trip raised %r" % (e,), "observed": {"raised": "roundtrip:" + type(e).__name__}}
     sec2 = las2.sections[secname]
-    items2 = list(sec2)[1:] if sec == "C" else list(sec2)
+    items2 = list(sec2)[SKIP[sec]:]
+    for other in ("Version", "Well", "Curves", "Parameter"):
+        if other != secname:
+            a_ = [(it.original_mnemonic, it.mnemonic, it.unit, it.descr) for it in las.sections[other]]
+            b__ = [(it.original_mnemonic, it.mnemonic, it.unit, it.descr) for it in las2.sections[other]]
+            if not (a_ == b__ or (other == "Version" and [x[:2] for x in a_] == [x[:2] for x in b__])):
+                problems.append("section %s after write->read: %r, before %r" % (other, b__, a_))
     if [it.original_mnemonic for it in items2] != got_orig or [it.mnemonic for it in items2] != got_sess:
         problems.append("after write->read: originals %r sessions %r; before %r %r; written:\n%s" % ([it.original_mnemonic for it in items2], [it.mnemonic for it in items2], got_orig, got_sess, out.getvalue()[:600]))
     return {"ok": not problems, "detail": "; ".join(problems) or "ok", "observed": {"raised": None, "n": len(items)}}
